@@ -376,9 +376,16 @@ func c15guarded(p *core.Prog, li *core.LockInfo, fn *ssa.Function, ins ssa.Instr
 					obase = q
 				}
 			}
+			// the object may be named differently where the closure was built (`cor := op.cor`; the closure sees `cor`)
+			obases := []string{obase}
+			if b := capturedBinding(s.Outer.Parent(), fn, base); b != nil {
+				obases = append(obases, core.Path(b))
+			}
 			for i, a := range s.Outer.Call.Args {
-				if i < len(g.Params) && core.Path(a) == obase {
-					nb = g.Params[i].Name()
+				for _, ob := range obases {
+					if i < len(g.Params) && core.Path(a) == ob {
+						nb = g.Params[i].Name()
+					}
 				}
 			}
 			if nb == "" {
